@@ -91,6 +91,23 @@ func runC15(c *core.Ctx) {
 	if !sortAll(c, keys, r) {
 		return
 	}
+	if c.Index%4 == 1 {
+		// McIlroy's "killer adversary": a comparator that decides the values while
+		// the sort under test runs, driving quicksort-like algorithms into their
+		// worst case (and thereby into rarely taken fallback paths). The frozen
+		// values are then replayed as ordinary data through every variant.
+		m := r.Range(13, 1500)
+		adv := killerInput(m, func(idx []int, less func(a, b int) bool) { slices.SortFunc(idx, less) })
+		c.Count("inputs_killer_adversary", 1)
+		if !sortAll(c, adv, r) {
+			return
+		}
+		rev := append([]int(nil), adv...)
+		slices.Reverse(rev)
+		if !sortAll(c, rev, r) {
+			return
+		}
+	}
 	c.NonTrivial(core.Mix(16, c.Seed))
 	if c.WantSample() {
 		c.Sample(map[string]any{"length": n, "universe": u, "prefix": clip(keys)})
@@ -283,4 +300,46 @@ func clipN(s []int, n int) []int {
 		return s[:n]
 	}
 	return s
+}
+
+// killerInput runs sortFn on item indices with McIlroy's adversarial comparator
+// ("A Killer Adversary for Quicksort", 1999) and returns the values it froze.
+func killerInput(n int, sortFn func(idx []int, less func(a, b int) bool)) []int {
+	gas := n + 1
+	val := make([]int, n)
+	for i := range val {
+		val[i] = gas
+	}
+	nsolid, candidate := 0, 0
+	less := func(x, y int) bool {
+		if val[x] == gas && val[y] == gas {
+			if x == candidate {
+				val[x] = nsolid
+			} else {
+				val[y] = nsolid
+			}
+			nsolid++
+		}
+		if val[x] == gas {
+			candidate = x
+		} else if val[y] == gas {
+			candidate = y
+		}
+		return val[x] < val[y]
+	}
+	idx := make([]int, n)
+	for i := range idx {
+		idx[i] = i
+	}
+	func() {
+		defer func() { recover() }() // a broken sort may misbehave under the adversary; the replay judges it
+		sortFn(idx, less)
+	}()
+	for i := range val {
+		if val[i] == gas {
+			val[i] = nsolid
+			nsolid++
+		}
+	}
+	return val
 }
